@@ -704,7 +704,7 @@ func (c *Ctx) c18CSS() {
 		if !ok {
 			return
 		}
-		if s, isC := eng.ConstString(ret.Results[0]); isC && s == "" {
+		if s, isC := eng.ConstString(eng.ReturnResults(ret)[0]); isC && s == "" {
 			errOK = true
 		}
 	})
@@ -794,7 +794,7 @@ func (c *Ctx) c18Text() {
 		return false
 	}
 	for _, ret := range successReturns(fn) {
-		if esc == nil || !derives(ret.Results[0], 0) {
+		if esc == nil || !derives(eng.ReturnResults(ret)[0], 0) {
 			probs = append(probs, "the returned value at "+p.InstrPos(ret)+" is not derived from the escaped text through the allowed post-processing steps")
 		}
 	}
@@ -931,7 +931,7 @@ func (c *Ctx) c18Text() {
 			}
 			rets := successReturns(g)
 			for _, ret := range rets {
-				if len(ret.Results) != 1 || !builtFrom(ret.Results[0], inner, depth+1) {
+				if len(eng.ReturnResults(ret)) != 1 || !builtFrom(eng.ReturnResults(ret)[0], inner, depth+1) {
 					return false
 				}
 			}
@@ -944,7 +944,7 @@ func (c *Ctx) c18Text() {
 	}
 	for _, ret := range successReturns(wrap) {
 		nWrapRet++
-		if !builtFromConsts(ret.Results[0], 0) {
+		if !builtFromConsts(eng.ReturnResults(ret)[0], 0) {
 			okWrap = false
 		}
 	}
@@ -1086,7 +1086,7 @@ func helperPassesThrough(g *ssa.Function, prm *ssa.Parameter, allowed map[string
 	n := 0
 	for _, ret := range successReturns(g) {
 		n++
-		if len(ret.Results) != 1 || !derives(ret.Results[0], 0) {
+		if len(eng.ReturnResults(ret)) != 1 || !derives(eng.ReturnResults(ret)[0], 0) {
 			return false
 		}
 	}
